@@ -23,7 +23,7 @@ import re
 
 from ..common import Report, REPO, AnalysisError, src
 from ..match import match_expr, match_stmts, strip_doc
-from ..minieval import ev, Undecidable
+from ..minieval import ev, Undecidable, Unsupported, run as run_body
 from ..reg import ReaderModel, Registry
 
 FILE = 'stdnum/gs1_128.py'
@@ -40,6 +40,30 @@ def branches_on(fn, var):
             if isinstance(n.ops[0], ast.In) and isinstance(c, (ast.Tuple, ast.List, ast.Set)):
                 out |= {e.value for e in c.elts if isinstance(e, ast.Constant)}
     return out
+
+
+def max_length_evaluator(tree=None):
+    """f(format, type) -> (value, error text) by evaluating the body of gs1_128._max_length() on the pair (whitelisted evaluator)."""
+    from ..minieval import compiled_patterns
+    if tree is None:
+        with open(os.path.join(REPO, FILE), encoding='utf-8') as fh:
+            tree = ast.parse(fh.read())
+    mx = next((n for n in tree.body if isinstance(n, ast.FunctionDef) and n.name == '_max_length'), None)
+    if mx is None or len(mx.args.args) < 2:
+        raise AnalysisError('%s: _max_length(fmt, type) vanished' % FILE)
+    pats = compiled_patterns(tree)
+    body = strip_doc(mx.body)
+
+    def f(fmt, typ):
+        env = dict(pats)
+        env.update({mx.args.args[0].arg: fmt, mx.args.args[1].arg: typ})
+        try:
+            return run_body(body, env), None
+        except Unsupported as ex:
+            raise AnalysisError('%s:%d _max_length() uses a construct the evaluator does not know: %s' % (FILE, mx.lineno, ex))
+        except Undecidable as ex:
+            return None, str(ex)
+    return f
 
 
 def validators_fit(rep):
@@ -121,6 +145,8 @@ def analyse(rep):
     with open(path, encoding='utf-8') as fh:
         tree = ast.parse(fh.read())
     funcs = {n.name: n for n in tree.body if isinstance(n, ast.FunctionDef)}
+    from ..minieval import compiled_patterns
+    module_patterns = compiled_patterns(tree)
     for need in ('_encode_value', '_decode_value', '_max_length', '_pad_value', 'info', 'encode', 'validate'):
         if need not in funcs:
             raise AnalysisError('%s: %s() vanished' % (FILE, need))
@@ -210,31 +236,14 @@ def analyse(rep):
     known = {('N6+[-]', 'int'), ('N6+[-]', 'str'), ('Z..90', 'str')}
     body = strip_doc(mx.body)
     for (f, t), e in sorted(pairs.items()):
-        env = {mx.args.args[0].arg: f, mx.args.args[1].arg: t}
+        env = dict(module_patterns)
+        env.update({mx.args.args[0].arg: f, mx.args.args[1].arg: t})
         val = None
         err = None
         try:
-            for st in body:
-                if isinstance(st, ast.Assign) and isinstance(st.targets[0], ast.Name):
-                    env[st.targets[0].id] = ev(st.value, env)
-                elif isinstance(st, ast.AugAssign) and isinstance(st.target, ast.Name) and isinstance(st.op, ast.Add):
-                    env[st.target.id] = env[st.target.id] + ev(st.value, env)
-                elif isinstance(st, ast.If):
-                    if ev(st.test, env):
-                        for s2 in st.body:
-                            if isinstance(s2, ast.AugAssign) and isinstance(s2.op, ast.Add):
-                                env[s2.target.id] = env[s2.target.id] + ev(s2.value, env)
-                            elif isinstance(s2, ast.Assign):
-                                env[s2.targets[0].id] = ev(s2.value, env)
-                            elif isinstance(s2, ast.Return):
-                                val = ev(s2.value, env)
-                            else:
-                                raise Undecidable('statement')
-                elif isinstance(st, ast.Return):
-                    val = ev(st.value, env)
-                    break
-                else:
-                    raise Undecidable('statement %s' % type(st).__name__)
+            val = run_body(body, env)
+        except Unsupported as ex:
+            raise AnalysisError('%s:%d _max_length() uses a construct the evaluator does not know: %s' % (FILE, mx.lineno, ex))
         except Undecidable as ex:
             err = str(ex)
         rep.check(isinstance(val, int) and val > 0, 'C16.length', reg.rel, e.rng, 'format="%s" type="%s"' % (f, t), e.line,
@@ -287,41 +296,59 @@ def analyse(rep):
     last = [c for c in comps if src(c.generators[0].iter).endswith('[-1:]')]
     if len(nonlast) != 1 or len(last) != 1:
         raise AnalysisError('%s:%d encode(): the two comprehensions over variable_values[:-1] / [-1:] were not found' % (FILE, encf.lineno))
+    def reg_var(fn):
+        """the local name that holds the registry properties of the current identifier: `ai, <name> = _gs1_aidb.info(...)[0]`"""
+        for n in ast.walk(fn):
+            if isinstance(n, ast.Assign) and len(n.targets) == 1 and isinstance(n.targets[0], ast.Tuple) and len(n.targets[0].elts) == 2 \
+                    and all(isinstance(e, ast.Name) for e in n.targets[0].elts) and '_gs1_aidb.info(' in src(n.value):
+                return n.targets[0].elts[1].id
+        raise AnalysisError('%s:%d %s(): no `ai, info = _gs1_aidb.info(...)[0]`' % (FILE, fn.lineno, fn.name))
+    inf = funcs['info']
+    sep_e = encf.args.args[1].arg if len(encf.args.args) > 1 else 'separator'
     elt = nonlast[0].elt
-    ok_sep = isinstance(elt, ast.BinOp) and isinstance(elt.op, ast.Add) and src(elt.right) == 'separator'
+    ok_sep = isinstance(elt, ast.BinOp) and isinstance(elt.op, ast.Add) and src(elt.right) == sep_e
     rep.check(ok_sep, 'C16.framing', FILE, 'encode', src(elt), elt.lineno,
               'a variable-length value that is not the last one is not unconditionally followed by the separator: the decoder cannot find its end')
     mid = None
     for n in ast.walk(elt):
         if isinstance(n, ast.IfExp):
             mid = n
-    ok_pad = mid is not None and src(mid.test) == 'separator' and '_pad_value(' in src(mid.orelse) and '_pad_value(' not in src(mid.body)
+    ok_pad = mid is not None and src(mid.test) == sep_e and '_pad_value(' in src(mid.orelse) and '_pad_value(' not in src(mid.body)
     rep.check(ok_pad, 'C16.framing', FILE, 'encode', src(mid) if mid is not None else src(elt), elt.lineno,
               'without a separator a variable-length value that is not the last one must be padded to its maximum length')
-    rep.check(src(ret[-1].value).replace(' ', '').startswith("''.join(fixed_values+["), 'C16.framing', FILE, 'encode', src(ret[-1].value)[:80], ret[-1].lineno,
+    jb = match_expr("''.join(V_fixed + [E_a for E_t1 in E_i1] + [E_b for E_t2 in E_i2])", ret[-1].value) or \
+        match_expr("''.join(V_fixed + E_rest)", ret[-1].value)
+    fixed_ok = False
+    if jb is not None:
+        # the list that comes first is the one filled on the branch without the fnc1 flag
+        fx = jb['V_fixed'].id
+        fixed_ok = any(isinstance(n, ast.Call) and isinstance(n.func, ast.Attribute) and n.func.attr == 'append' and src(n.func.value) == fx for n in ast.walk(encf))
+    rep.check(fixed_ok, 'C16.framing', FILE, 'encode', src(ret[-1].value)[:80], ret[-1].lineno,
               'fixed-length values are not emitted before the variable-length ones')
     # which list a value goes to is decided by the registry's fnc1 flag, the same test info() uses
-    rep.check("info.get('fnc1', False)" in src(encf) and "info.get('fnc1', False)" in src(funcs['info']), 'C16.framing', FILE, 'encode', "info.get('fnc1', False)", encf.lineno,
+    re_, ri_ = reg_var(encf), reg_var(inf)
+    rep.check(("%s.get('fnc1', False)" % re_) in src(encf) and ("%s.get('fnc1', False)" % ri_) in src(inf), 'C16.framing', FILE, 'encode', "info.get('fnc1', False)", encf.lineno,
               'encoder and decoder no longer use the same fnc1 test to tell variable-length identifiers')
     # --- value handed to the decoder is a slice of the element string
-    inf = funcs['info']
     numvar = inf.args.args[0].arg
+    decs = [n for n in ast.walk(inf) if isinstance(n, ast.Call) and src(n.func) == '_decode_value']
+    valname = src(decs[0].args[2]) if len(decs) == 1 and len(decs[0].args) == 3 and isinstance(decs[0].args[2], ast.Name) else None
     for n in ast.walk(inf):
-        if isinstance(n, ast.Assign) and len(n.targets) == 1 and src(n.targets[0]) == 'value':
+        if valname and isinstance(n, ast.Assign) and len(n.targets) == 1 and src(n.targets[0]) == valname:
             v = n.value
             ok = isinstance(v, ast.Subscript) and src(v.value) == numvar and isinstance(v.slice, ast.Slice)
             rep.check(ok, 'C16.value', FILE, 'info', src(n), n.lineno,
                       'the value decoded for an identifier is %s, not the characters of the element string: decoding and re-encoding no longer agree' % src(v)[:60])
-    decs = [n for n in ast.walk(inf) if isinstance(n, ast.Call) and src(n.func) == '_decode_value']
-    rep.check(len(decs) == 1 and src(decs[0].args[2]) == 'value' and src(decs[0].args[0]) == "info['format']" and src(decs[0].args[1]) == "info['type']",
+    rep.check(valname is not None and src(decs[0].args[0]) == "%s['format']" % ri_ and src(decs[0].args[1]) == "%s['type']" % ri_,
               'C16.value', FILE, 'info', src(decs[0]) if decs else '_decode_value(...)', inf.lineno, 'info() does not decode the value with the format and type of its identifier')
     encs = [n for n in ast.walk(encf) if isinstance(n, ast.Call) and src(n.func) == '_encode_value']
-    rep.check(len(encs) == 1 and src(encs[0].args[0]) == "info['format']" and src(encs[0].args[1]) == "info['type']" and src(encs[0].args[2]) == 'value',
+    rep.check(len(encs) == 1 and len(encs[0].args) == 3 and src(encs[0].args[0]) == "%s['format']" % re_ and src(encs[0].args[1]) == "%s['type']" % re_
+              and isinstance(encs[0].args[2], ast.Name),
               'C16.value', FILE, 'encode', src(encs[0]) if encs else '_encode_value(...)', encf.lineno, 'encode() does not encode the value with the format and type of its identifier')
     # --- validate = encode(info(x, sep), sep) in the catch-all
     val = funcs['validate']
     b = strip_doc(val.body)
     okv = len(b) == 1 and isinstance(b[0], ast.Try) and len(b[0].body) == 1 and isinstance(b[0].body[0], ast.Return) and \
-        match_expr('encode(info(%s, separator), separator)' % val.args.args[0].arg, b[0].body[0].value) is not None
+        match_expr('encode(info(%s, %s), %s)' % (val.args.args[0].arg, val.args.args[1].arg, val.args.args[1].arg), b[0].body[0].value) is not None
     rep.check(okv, 'C16.value', FILE, 'validate', src(b[0].body[0]) if b and isinstance(b[0], ast.Try) else src(b[0]), val.lineno,
               'validate() is not encode(info(number, separator), separator)')
